@@ -233,6 +233,30 @@ def single_worker_liveness(args):
     return None
 
 
+def halt_liveness(kind):
+    """the write halt on >= 4 sealed memtables must end once the worker gets to flush them: the single worker is busy with
+    another keyspace's flush (held before it) while four rotations pile up sealed memtables in alpha; a writer (insert /
+    remove / batch) then runs into the halt; the worker is released.  The writer must return — it may hold no lock the flush
+    needs while it waits."""
+    w = {"put": "put h0 61 ff", "del": "del h0 61", "delw": "delw h0 61", "batch": "batch - h0:p:61:ff h0:d:62"}[kind]
+    L = ["open plain workers=1", "ks h0 alpha", "ks h1 beta", "put h1 71 01", "pausepoint worker.flush.before 1 hold", "rotate h1",
+         "waitpause worker.flush.before"]
+    for i in range(4):
+        L += ["put h0 61 %02x" % (i + 1), "put h0 62 %02x" % (i + 1), "rotate h0"]
+    L += ["seqnos h0", "thread w %s &" % w, "sleep 400", "pausepoint worker.flush.before 1 off", "release worker.flush.before",
+          "thread w has - h0 00", "get - h0 61"]
+    prog = "\n".join(L) + "\n"
+    o, raw, rc = run_fjv(prog, env_extra={"FJV_SYNC_TIMEOUT_MS": "20000"}, timeout=120)
+    n = len(L)
+    if "sealed=4" not in (o.get(n - 6) or ""):
+        return None                        # the four sealed memtables did not pile up: nothing to judge
+    want = {"put": "some ff", "del": "none", "delw": "none", "batch": "some ff"}[kind]
+    if o.get(n) != want or not (o.get(n - 1) or "").startswith(("true", "false")):
+        return ("write halt (4 sealed memtables, single worker busy elsewhere): `%s` did not return after the worker was released "
+                "(barrier: %s, final read: %s, expected %s)" % (w, o.get(n - 1), o.get(n), want), prog)
+    return None
+
+
 HELD = [(s_, a, b) for s_, kinds in (("ks.after_journal", ("put", "del")), ("ks.before_publish", ("put", "del")),
                                       ("batch.after_seqno", ("batch",)), ("batch.after_item", ("batch",)),
                                       ("batch.before_publish", ("batch",)))
@@ -252,6 +276,10 @@ def run(rep, tier, seed, build):
     sw = [x for x in sw if x]
     for msg, prog in sw[:1]:
         rep.violation("# C14: %s\n%s" % (msg, "\n".join(prog.splitlines()[:12]) + "\n... (rounds of 6 asynchronous puts on 3 threads + rotate)\n"))
+    hl, unconf4 = pmap_confirm(halt_liveness, ["put", "del", "delw", "batch"], lambda x: x is not None, workers=4)
+    for msg, prog in [x for x in hl if x][:1]:
+        rep.violation("# C14: %s\n%s" % (msg, prog))
+    unconf3 += unconf4
     n = 24 if tier == "quick" else 300
     # free-running runs: a stalled operation (time limit) is confirmed by a second, patient run; a non-linearizable history is
     # evidence by itself, but the confirming run costs nothing when it shows up again
@@ -273,7 +301,7 @@ def run(rep, tier, seed, build):
                              "memtable limit 600-4000 bytes and 1-4 worker threads (continuous rotation/flush/compaction), every operation "
                              "timestamped at call and return; per-key Wing-Gong linearizability search including a final read of the "
                              "content; content after reopen must equal the final content; distinct by (threads, ops, workers, memtable)",
-                        samples=[res[0]["run"]["prog"].splitlines()[:8]], held_writer_schedules=len(hw), unconfirmed_alarms=unconf + unconf2 + unconf3, runs=n, threads_max=max(x["run"]["threads"] for x in res),
+                        samples=[res[0]["run"]["prog"].splitlines()[:8]], held_writer_schedules=len(hw), halt_liveness_schedules=4, unconfirmed_alarms=unconf + unconf2 + unconf3, runs=n, threads_max=max(x["run"]["threads"] for x in res),
                         disagreements_checked=len(bad), partial_theorems=THEOREMS, partial_theorems_discharged=dis,
                         partial_theorem_problems=pproblems)
     if pproblems and not rep.violations:
